@@ -1,6 +1,8 @@
 package props
 
 import (
+	"path/filepath"
+	"os"
 	"fmt"
 	"math/rand"
 	"sort"
@@ -584,6 +586,17 @@ func c12Check(env *core.Env, cc core.Case) core.Verdict {
 	}
 	regex := string(g.Stdout)
 	v := core.Verdict{Status: core.Held, Features: []string{"lane:" + c.Lane}, Counts: map[string]int{}}
+	if (len(regex)+len(c.Rules))%6 == 1 {
+		// the rules file is kept elsewhere and linked into rules/: update writes through the link, compare reads through it
+		if err := os.MkdirAll(filepath.Join(root, "shared"), 0o755); err == nil {
+			if err := os.Rename(filepath.Join(root, rulesPath), filepath.Join(root, "shared", "rules-932.conf")); err == nil {
+				if err := os.Symlink("../shared/rules-932.conf", filepath.Join(root, rulesPath)); err != nil {
+					return core.Incon("cannot link the rules file: %v", err)
+				}
+				v.Features = append(v.Features, "rules-file-is-a-link")
+			}
+		}
+	}
 	u := cli(env, root, nil, "regex", "update", c.Target)
 	if u.Exit != 0 {
 		return core.Viol("update-fails", "update %s failed: %s", c.Target, describe(u))
@@ -628,11 +641,17 @@ func c12Check(env *core.Env, cc core.Case) core.Verdict {
 		if len(regex) > 0 {
 			i = rng.Intn(len(regex))
 		}
-		kind := rng.Intn(5)
+		kind := rng.Intn(8)
 		if len(regex) == 0 {
 			kind = 3 // nothing to flip or delete in an empty expression
 		}
 		switch kind {
+		case 5: // a control character inserted (a tab, an escape character, a delete character)
+			mutated = regex[:i] + core.Pick(rng, "\t", "\x1b", "\x7f", "\x08") + regex[i:]
+		case 6: // a control character appended
+			mutated = regex + core.Pick(rng, "\t", "\x1b", "\x7f", "\x01")
+		case 7: // a blank appended
+			mutated = regex + " "
 		case 3: // one byte appended: the stored operand merely extends the generated regex
 			mutated = regex + "q"
 		case 4: // the last byte deleted: the stored operand is a proper prefix of the generated regex
